@@ -67,6 +67,8 @@ type cRig struct {
 	subGot    int32
 	subOn     bool
 	cb        int32
+	lost, discBeforeLoss bool // a fault / close command was issued; "disc" came before it
+	cb2       int32 // a second callback registered with every "disc": every registered callback fires exactly once
 	subCancel func()
 	paused    bool
 	kick      chan struct{}
@@ -329,12 +331,17 @@ func clientOne(res *hlib.Result, r *cRig, trk *tracker, rec *hlib.Recorder, ops 
 				}
 			}()
 		case "disc":
+			r.discBeforeLoss = !r.lost
 			r.client.OnDisconnect(func(err error) { atomic.AddInt32(&r.cb, 1) })
+			r.client.OnDisconnect(func(err error) { atomic.AddInt32(&r.cb2, 1) })
 		case "fail":
+			r.lost = true
 			r.st.Fail(errors.New("injected connection failure"))
 		case "eof":
+			r.lost = true
 			r.st.FeedEOF()
 		case "close":
+			r.lost = true
 			r.ep.Close()
 		case "pause":
 			r.mu.Lock()
@@ -448,6 +455,19 @@ func clientOne(res *hlib.Result, r *cRig, trk *tracker, rec *hlib.Recorder, ops 
 		}
 		res.Fail("client/outcome", fmt.Sprintf("after %s(%d): observed %+v, the specification allows %+v (calls: 0 idle 1 pending 2 value 3 error 4 in write; sub 0 off 1 on 2 closed)", o.O, o.A, got, o.Allowed), cse)
 		return 2
+	}
+	// every callback registered before the connection was lost fires exactly once: the second one registered by
+	// the same "disc" ends up called as often as the first - once the shutdown, if it was held, has gone on (the
+	// first may be called earlier: a failed send removes the handler in its call's former slot)
+	if r.discBeforeLoss && r.lost {
+		if r.holdCh != nil && !r.unheld {
+			r.unheld = true
+			close(r.holdCh)
+		}
+		if !waitUntil(3*time.Second, func() bool { return atomic.LoadInt32(&r.cb2) == atomic.LoadInt32(&r.cb) }) {
+			res.Fail("client/second-callback-differs", fmt.Sprintf("two disconnect callbacks registered together before the connection was lost were called %d and %d times", atomic.LoadInt32(&r.cb), atomic.LoadInt32(&r.cb2)), cse)
+			return 2
+		}
 	}
 	return 0
 }
